@@ -152,14 +152,52 @@ def drive(case, scratch):
     with open(os.path.join(scratch, "runme.py"), "w") as f:
         f.write(case.get("runfile_text", "zz_r = b64decode('aGk=')\n"))
     sys.path.insert(0, moddir)
+    cwd = os.path.join(scratch, "cwd")
+    os.makedirs(cwd)
+    with open(os.path.join(cwd, "zzcwd_mod.py"), "w") as f:
+        f.write("val = 5\n")
+    os.chdir(cwd)
+    if case.get("bad_finder"):
+        # a natural fault source for completion: a sys.path entry whose finder cannot enumerate its modules
+        class ZzBadFinder(object):
+            def __init__(self, path):
+                if path != "zz-bad-finder://entry":
+                    raise ImportError(path)
+
+            def find_spec(self, name, target=None):
+                return None
+
+            def invalidate_caches(self):
+                pass
+
+            def iter_modules(self, prefix=""):
+                raise OSError(5, "Input/output error (enumerating zz-bad-finder://entry)")
+        sys.path_hooks.insert(0, ZzBadFinder)
+        sys.path.append("zz-bad-finder://entry")
     os.environ["PYFLYBY_PATH"] = os.path.join(scratch, "db.py")
     with_pf = case.get("with_pyflyby", True)
 
     from IPython.terminal.ipapp import TerminalIPythonApp
     app = TerminalIPythonApp.instance()
-    app.initialize(argv=['--no-banner', '--quick', '--simple-prompt', '--colors=NoColor', '--no-confirm-exit',
-                         '--Completer.use_jedi=%s' % bool(case.get("jedi", False))])
-    ip = app.shell
+    argv = ['--no-banner', '--quick', '--simple-prompt', '--colors=NoColor', '--no-confirm-exit',
+            '--Completer.use_jedi=%s' % bool(case.get("jedi", False))]
+
+    class H(object):        # the shell and its parts, once it exists
+        ip = execmgr = completer = iptb = splitter = None
+        line_magics = {}
+
+    def bind_shell():
+        H.ip = app.shell
+        H.execmgr = H.ip.magics_manager.magics['line']['prun'].__self__ if hasattr(H.ip, "magics_manager") else None
+        H.line_magics = H.ip.magics_manager.magics['line'] if hasattr(H.ip, "magics_manager") else {}
+        H.completer = getattr(H.ip, "Completer", None)
+        H.iptb = getattr(H.ip, "InteractiveTB", None)
+        H.splitter = getattr(H.ip, "input_splitter", None)
+
+    preshell = bool(case.get("preshell"))
+    if not preshell:
+        app.initialize(argv=argv)
+        bind_shell()
     out = {"trace": []}
 
     # ------------------------------------------------------------------ identities
@@ -173,20 +211,18 @@ def drive(case, scratch):
         return len(seen) - 1
 
     UNSET = object()
-    execmgr = ip.magics_manager.magics['line']['prun'].__self__ if hasattr(ip, "magics_manager") else None
-    line_magics = ip.magics_manager.magics['line'] if hasattr(ip, "magics_manager") else {}
-    completer = getattr(ip, "Completer", None)
-    iptb = getattr(ip, "InteractiveTB", None)
-    splitter = getattr(ip, "input_splitter", None)
 
     def containers():
+        ipd = getattr(H.ip, "__dict__", {})
         return [
-            (getattr(splitter, "__dict__", {}), "reset"), (ip.__dict__, "_ofind"), (ip.__dict__, "run_ast_nodes"),
-            (ip.__dict__, "compile"), (line_magics, "time"), (line_magics, "timeit"),
-            (getattr(execmgr, "__dict__", {}), "_run_with_profiler"), (line_magics, "prun"),
-            (type(completer).__dict__, "matchers"), (getattr(completer, "__dict__", {}), "global_matches"),
-            (getattr(completer, "__dict__", {}), "attr_matches"), (ip.__dict__, "safe_execfile"),
-            (getattr(iptb, "__dict__", {}), "debugger"), (getattr(execmgr, "__dict__", {}), "_run_with_debugger")]
+            (getattr(H.splitter, "__dict__", {}), "reset"), (ipd, "_ofind"), (ipd, "run_ast_nodes"),
+            (ipd, "compile"), (H.line_magics, "time"), (H.line_magics, "timeit"),
+            (getattr(H.execmgr, "__dict__", {}), "_run_with_profiler"), (H.line_magics, "prun"),
+            (type(H.completer).__dict__ if H.completer is not None else {}, "matchers"),
+            (getattr(H.completer, "__dict__", {}), "global_matches"),
+            (getattr(H.completer, "__dict__", {}), "attr_matches"), (ipd, "safe_execfile"),
+            (getattr(H.iptb, "__dict__", {}), "debugger"), (getattr(H.execmgr, "__dict__", {}), "_run_with_debugger"),
+            (app.__dict__, "init_shell"), (app.__dict__, "initialize_subcommand")]
 
     def val(v):
         if v is UNSET:
@@ -195,11 +231,11 @@ def drive(case, scratch):
 
     def effective():
         """what attribute access resolves to (identity of the underlying function)"""
-        objs = [(ip, "_ofind"), (ip, "safe_execfile"), (completer, "global_matches"), (completer, "attr_matches"),
-                (iptb, "debugger"), (execmgr, "_run_with_profiler"), (execmgr, "_run_with_debugger")]
+        objs = [(H.ip, "_ofind"), (H.ip, "safe_execfile"), (H.completer, "global_matches"), (H.completer, "attr_matches"),
+                (H.iptb, "debugger"), (H.execmgr, "_run_with_profiler"), (H.execmgr, "_run_with_debugger")]
         r = []
         for o, n in objs:
-            v = getattr(o, n, UNSET)
+            v = getattr(o, n, UNSET) if o is not None else UNSET
             if not getattr(v, "__aspect__", None):
                 v = getattr(v, "__func__", v)
             r.append(val(v))
@@ -210,11 +246,16 @@ def drive(case, scratch):
     def snapshot():
         ai = ai_box[0]
         slots = [val(c.get(n, UNSET)) for c, n in containers()]
-        d = {"slots": slots, "eff": effective(),
-             "ast": [tok(x) for x in ip.ast_transformers],
-             "cleanup": [tok(x) for x in ip.input_transformers_cleanup],
+        def own(x):      # created by pyflyby
+            return (getattr(x, "__module__", "") or "").startswith("pyflyby") or type(x).__module__.startswith("pyflyby")
+        asts = list(H.ip.ast_transformers) if H.ip is not None else []
+        cls_ = list(H.ip.input_transformers_cleanup) if H.ip is not None else []
+        d = {"slots": slots, "eff": effective(), "has_shell": H.ip is not None,
+             "ast": [tok(x) for x in asts], "cleanup": [tok(x) for x in cls_],
+             "ast_own": [own(x) for x in asts], "cleanup_own": [own(x) for x in cls_],
              "line": [],
-             "loaded": "pyflyby" in ip.extension_manager.loaded}
+             "loaded": H.ip is not None and "pyflyby" in H.ip.extension_manager.loaded,
+             "attr": hasattr(H.ip, "_auto_importer")}
         if ai is not None:
             dis = []
             for f in ai._disablers[::-1]:
@@ -241,6 +282,7 @@ def drive(case, scratch):
             d.update(st=str(ai._state), errored=bool(ai._errored), disablers=dis,
                      ast_tr=(None if ai._ast_transformer is None else tok(ai._ast_transformer)),
                      attempted=sorted([str(k), bool(v)] for k, v in ai._autoimported_this_cell.items()),
+                     registered=(sorted(str(i.import_as) for i in ai.db.known_imports.imports) if getattr(ai, "db", None) is not None else []),
                      log_pre=bool(h and h[0]._pre_log_function is not None),
                      log_dirty=bool(h and h[0]._logged_anything_during_context))
         return d
@@ -248,53 +290,57 @@ def drive(case, scratch):
     # ------------------------------------------------------------------ environment probe
     def probe():
         e = {}
-        e["reset"] = ("RPost" if hasattr(ip, "input_transformers_post") else
-                      "RManager" if hasattr(ip, "input_transformer_manager") else
-                      "RSplitter" if hasattr(ip, "input_splitter") else "RNone")
-        e["ofind"] = hasattr(ip, "_ofind")
-        e["ast"] = ("AstTransformers" if hasattr(ip, "ast_transformers") else
-                    "AstRunNodes" if hasattr(ip, "run_ast_nodes") else
-                    "AstCompile" if hasattr(ip, "compile") else "AstNone")
-        e["magics"] = hasattr(ip, "magics_manager")
-        e["profiler"] = hasattr(execmgr, "_run_with_profiler")
-        e["compl"] = ("ComplGlobal" if hasattr(completer, "global_matches") else
-                      "ComplZMQ" if hasattr(completer, "complete_request") else "ComplNone")
-        e["jedi"] = bool(getattr(completer, "use_jedi", False))
-        if not hasattr(completer, "python_matches"):
+        e["reset"] = ("RPost" if hasattr(H.ip, "input_transformers_post") else
+                      "RManager" if hasattr(H.ip, "input_transformer_manager") else
+                      "RSplitter" if hasattr(H.ip, "input_splitter") else "RNone")
+        e["ofind"] = hasattr(H.ip, "_ofind")
+        e["ast"] = ("AstTransformers" if hasattr(H.ip, "ast_transformers") else
+                    "AstRunNodes" if hasattr(H.ip, "run_ast_nodes") else
+                    "AstCompile" if hasattr(H.ip, "compile") else "AstNone")
+        e["magics"] = hasattr(H.ip, "magics_manager")
+        e["profiler"] = hasattr(H.execmgr, "_run_with_profiler")
+        e["compl"] = ("ComplGlobal" if hasattr(H.completer, "global_matches") else
+                      "ComplZMQ" if hasattr(H.completer, "complete_request") else "ComplNone")
+        e["jedi"] = bool(getattr(H.completer, "use_jedi", False))
+        if not hasattr(H.completer, "python_matches"):
             e["pm"] = "PmMissing"
         else:
-            e["pm"] = "PmListed" if completer.python_matches in completer.matchers else "PmUnlisted"
-        e["execfile"] = hasattr(ip, "safe_execfile")
-        e["tb_debugger"] = hasattr(iptb, "debugger")
-        e["rwd"] = hasattr(execmgr, "_run_with_debugger")
+            e["pm"] = "PmListed" if H.completer.python_matches in H.completer.matchers else "PmUnlisted"
+        e["execfile"] = hasattr(H.ip, "safe_execfile")
+        e["tb_debugger"] = hasattr(H.iptb, "debugger")
+        e["rwd"] = hasattr(H.execmgr, "_run_with_debugger")
         # the assumptions of the model about the application (initialised terminal app)
         e["app_ok"] = (app.shell is not None and getattr(app, "kernel_manager", None) is None
                        and getattr(app, "kernel_manager_class", None) is None
-                       and not hasattr(ip, "post_config_initialization") and getattr(app, "subapp", None) is None)
+                       and not hasattr(H.ip, "post_config_initialization") and getattr(app, "subapp", None) is None)
+        e["init_subcmd"] = hasattr(app, "initialize_subcommand")
         e["stdout_proxy"] = None
-        e["prompts_class"] = hasattr(ip, "prompts_class")
-        e["pt_cli"] = hasattr(ip, "pt_cli")
-        e["readline"] = hasattr(ip, "readline")
+        e["prompts_class"] = hasattr(H.ip, "prompts_class")
+        e["pt_cli"] = hasattr(H.ip, "pt_cli")
+        e["readline"] = hasattr(H.ip, "readline")
         return e
 
-    out["env"] = probe()
+    out["env"] = probe() if not preshell else {}
     n_plain = len(seen)
 
     auto_imported = []
+    env_pf = {}
     if with_pf:
         import pyflyby
+        import pyflyby._modules as M
         import pyflyby._interactive as I
         import pyflyby._autoimp as A
         import pyflyby._importdb as D
         import pyflyby._parse as P
         from pyflyby._log import logger
-        out["env"]["level"] = {"DEBUG": 10, "INFO": 20, "WARNING": 30, "ERROR": 40}.get(
+        env_pf["level"] = {"DEBUG": 10, "INFO": 20, "WARNING": 30, "ERROR": 40}.get(
             os.environ.get("PYFLYBY_LOG_LEVEL", "INFO").upper(), 20)
         try:
             I._get_IPdb_class()
-            out["env"]["ipdb"] = True
+            env_pf["ipdb"] = True
         except Exception:
-            out["env"]["ipdb"] = False
+            env_pf["ipdb"] = False
+        out["env"].update(env_pf)
         pfdir = os.path.dirname(os.path.abspath(pyflyby.__file__))
         ai_box[0] = I.AutoImporter(app)
 
@@ -302,18 +348,35 @@ def drive(case, scratch):
         armed = {}
         hits = {}
 
+        calls = {}           # calls of each stubbed function during the interaction
+        fired_in = {}        # where the stub was when it first raised
+
         def bomb(site, orig):
             def stub(*a, **k):
                 if site in armed:
-                    hits[site] = hits.get(site, 0) + 1
-                    raise make_exc(armed[site], site)
+                    calls[site] = calls.get(site, 0) + 1
+                    if calls[site] >= armed_k.get(site, 1):
+                        hits[site] = hits.get(site, 0) + 1
+                        if site not in fired_in:
+                            f, names = sys._getframe(1), []
+                            while f is not None and len(names) < 60:
+                                names.append(f.f_code.co_name)
+                                f = f.f_back
+                            fired_in[site] = ("analysis" if "find_missing_imports" in names
+                                              else "symbol" if "auto_import_symbol" in names else "other")
+                        raise make_exc(armed[site], site)
                 return orig(*a, **k)
             stub.__name__ = getattr(orig, "__name__", "stub")
             return stub
 
         I.get_global_namespaces = bomb("SNamespaces", I.get_global_namespaces)
         A.ScopeStack.__init__ = bomb("SScopeStack", A.ScopeStack.__init__)
-        A.find_missing_imports = bomb("SAnalysis", A.find_missing_imports)
+        _real_fmi = A.find_missing_imports
+
+        def find_missing_imports(*a, **k):      # keeps its name: the k-th-call stub looks for it on the stack
+            return _real_fmi(*a, **k)
+        A.find_missing_imports = bomb("SAnalysis", find_missing_imports)
+        A.symbol_needs_import = bomb("SNeedsImport", A.symbol_needs_import)
         _orig_ast_node = P.PythonBlock.__dict__["ast_node"]
 
         class _AstNodeProxy(object):
@@ -335,7 +398,8 @@ def drive(case, scratch):
         I.complete_symbol = bomb("SCompletion", I.complete_symbol)
     else:
         pfdir = None
-        armed, hits = {}, {}
+        armed, hits, calls, fired_in = {}, {}, {}, {}
+    armed_k = {}
 
     out["n_plain"] = n_plain
     out["trace"].append({"snap": snapshot()})
@@ -350,20 +414,23 @@ def drive(case, scratch):
         elif name == "Disable":
             pyflyby.disable_auto_importer()
         elif name == "LoadExt":
-            ip.extension_manager.load_extension("pyflyby")
+            H.ip.extension_manager.load_extension("pyflyby")
         elif name == "UnloadExt":
-            ip.extension_manager.unload_extension("pyflyby")
+            H.ip.extension_manager.unload_extension("pyflyby")
         elif name == "ReloadExt":
-            ip.extension_manager.reload_extension("pyflyby")
+            H.ip.extension_manager.reload_extension("pyflyby")
         elif name == "LoadFn":
-            pyflyby.load_ipython_extension(ip)
+            pyflyby.load_ipython_extension(H.ip)
         elif name == "UnloadFn":
-            pyflyby.unload_ipython_extension(ip)
+            pyflyby.unload_ipython_extension(H.ip)
+        elif name == "AddImport":
+            from pyflyby._dynimp import add_import
+            add_import("zz_reg", "zz_reg = 41")
         else:
             raise ValueError(name)
 
     def ns_names():
-        return sorted(k for k in ip.user_ns if not k.startswith("_") and k not in
+        return sorted(k for k in H.ip.user_ns if not k.startswith("_") and k not in
                       ("In", "Out", "get_ipython", "exit", "quit", "open"))
 
     pf_calls = [0]
@@ -380,6 +447,29 @@ def drive(case, scratch):
             pf_calls[0] += 1
             if len(pf_names) < 6:
                 pf_names.append("%s:%s" % (os.path.basename(frame.f_code.co_filename), frame.f_code.co_name))
+
+    def gsnap():
+        """process-global state an interaction must leave as a pyflyby-free shell leaves it"""
+        import logging
+        return {"sys.path": [p.replace(scratch, "<SCRATCH>") for p in sys.path],
+                "sys.meta_path": [type(f).__name__ if not isinstance(f, type) else f.__name__ for f in sys.meta_path],
+                "sys.path_hooks": len(sys.path_hooks),
+                "cwd": os.getcwd().replace(scratch, "<SCRATCH>"),
+                "environ": sorted("%s=%s" % kv for kv in os.environ.items()),
+                "builtins": sorted(k for k in vars(builtins) if k != "_"),
+                "logging": [type(h).__name__ for h in logging.getLogger().handlers]
+                           + ["pyflyby:" + type(h).__name__ for h in logging.getLogger("pyflyby").handlers]}
+
+    def gdelta(a, b):
+        d = {}
+        for k in a:
+            if a[k] != b[k]:
+                if isinstance(a[k], list):
+                    d[k] = {"removed": [x for x in a[k] if x not in b[k]], "added": [x for x in b[k] if x not in a[k]],
+                            "reordered": sorted(a[k]) == sorted(b[k])}
+                else:
+                    d[k] = [a[k], b[k]]
+        return d
 
     def do_cell(op):
         act, text = op["act"], op["text"]
@@ -406,6 +496,7 @@ def drive(case, scratch):
                 except BaseException as e:
                     r["natural_parse"] = [type(e).__name__, stage]
         before = set(ns_names())
+        g_before = gsnap()
         buf = io.StringIO()
         pf_calls[0] = 0
         del auto_imported[:]
@@ -419,8 +510,12 @@ def drive(case, scratch):
                 D.ImportDB.get_default(".")
             except Exception:
                 pass
-        armed.update({s: e for s, e in op.get("faults", [])})
+        armed.update({f[0]: f[1] for f in op.get("faults", [])})
+        armed_k.clear()
+        armed_k.update({f[0]: f[2] for f in op.get("faults", []) if len(f) > 2})
         hits.clear()
+        calls.clear()
+        fired_in.clear()
         sys.setprofile(prof)
         try:
             with contextlib.redirect_stdout(buf):
@@ -429,17 +524,17 @@ def drive(case, scratch):
                 if act in ("run", "runfile", "prun", "debugstmt"):
                     if act == "runfile":
                         text = "%run -i " + runpath
-                    res = ip.run_cell(text, store_history=False)
+                    res = H.ip.run_cell(text, store_history=False)
                     err = res.error_in_exec or res.error_before_exec
                     r["result"] = repr(res.result)
                     r["error"] = type(err).__name__ if err is not None else None
                 elif act == "inspect":
-                    info = ip._ofind(text)
+                    info = H.ip._ofind(text)
                     r["result"] = bool(info.found if hasattr(info, "found") else info["found"])
                 elif act == "cglobal":
-                    r["matches"] = sorted(ip.Completer.global_matches(text))
+                    r["matches"] = sorted(H.ip.Completer.global_matches(text))
                 elif act == "cattr":
-                    r["matches"] = sorted(ip.Completer.attr_matches(text))
+                    r["matches"] = sorted(H.ip.Completer.attr_matches(text))
                 else:
                     raise ValueError(act)
         except BaseException as e:
@@ -452,6 +547,8 @@ def drive(case, scratch):
         r["dynimp_calls"] = dyn_calls[0]
         r["pf_first"] = list(pf_names)
         r["hits"] = dict(hits)
+        r["fired_in"] = dict(fired_in)
+        r["globals_delta"] = gdelta(g_before, gsnap())
         r["stdout"] = buf.getvalue().replace(scratch, "<SCRATCH>")
         r["auto_imported"] = list(auto_imported)
         r["ns_added"] = sorted(set(ns_names()) - before)
@@ -462,14 +559,31 @@ def drive(case, scratch):
         ent = {}
         if op["op"] == "cell":
             for stmt in case.get("pre_imports", {}).get(str(idx), []):
-                exec(stmt, ip.user_ns)
+                exec(stmt, H.ip.user_ns)
             ent["cell"] = do_cell(op)
+        elif op["op"] == "Initialize":
+            # [IPython] app.initialize() -> init_shell(): the shell comes to exist (ipython_config.py / `py` order)
+            try:
+                if H.ip is None:
+                    app.initialize(argv=argv)
+                    bind_shell()
+                    out["env"] = probe()
+                    out["env"].update(env_pf)
+            except BaseException as e:
+                ent["escaped"] = type(e).__name__
+                ent["escaped_msg"] = safe_str(e, 200)
         elif with_pf:
             try:
                 do_op(op["op"])
             except BaseException as e:
                 ent["escaped"] = type(e).__name__
                 ent["escaped_msg"] = safe_str(e, 200)
+        elif op["op"] == "AddImport":
+            # the pyflyby-free shell gets the registered module as an ordinary one
+            import types
+            m = types.ModuleType("pyflyby_autoimport_zz_reg")
+            m.zz_reg = 41
+            sys.modules["pyflyby_autoimport_zz_reg"] = m
         ent["snap"] = snapshot()
         out["trace"].append(ent)
     try:
